@@ -210,6 +210,16 @@ func (sc *specCtx) lookupVar(name string) (Value, bool) {
 	if v, ok := sc.bound[name]; ok {
 		return v, true
 	}
+	if sc.preferEnv && sc.envOver != nil {
+		if ent, ok := sc.envOver[name]; ok {
+			if ent.isAddr {
+				if p, ok := ent.v.(PtrV); ok {
+					return sc.load(p), true
+				}
+			}
+			return ent.v, true
+		}
+	}
 	if sc.preferEnv && sc.frame != nil && sc.envOver == nil {
 		// inside the function body (loop invariants, iteration and fold clauses) a name denotes the
 		// variable's current value, also for parameters that were reassigned
@@ -1038,11 +1048,18 @@ func (x *Exec) matchEvent(sc *specCtx, f ast.Expr, ev *Event) Term {
 			if ev.Name != s && ev.Kind != s {
 				return tFalse
 			}
+			// channels (and other reference values) are identified by their value, mutexes / wait groups
+			// (structs held by value) by their address
 			var want Term
-			if p, ok := x.evalAddr(sc, ce.Args[1]); ok {
+			v := x.evalSpec(sc, ce.Args[1])
+			if sv, ok := v.(Scalar); ok {
+				want = sv.T
+			} else if pv, ok := v.(PtrV); ok {
+				want = x.ptrScalar(pv)
+			} else if p, ok := x.evalAddr(sc, ce.Args[1]); ok {
 				want = x.ptrScalar(p)
 			} else {
-				want = x.flatten(x.evalSpec(sc, ce.Args[1]))[0]
+				want = x.flatten(v)[0]
 			}
 			if ev.Callee == nil {
 				return tFalse
